@@ -625,6 +625,17 @@ func plan(ctx *fw.Ctx, r *fw.Rand, mi *modelInfo, haveDelta bool, docs []foreign
 			}
 			add("generate-db-scripts:all-apps", "generate-db-scripts", nil, "-a", strings.Join(names, ","), "-t", "All", "-o", "out/dball", "-d", r.Pick([]string{"postgres", "mysql", "other"}), "root.sysl")
 		}
+		// every other application that owns tables gets its scripts too (an untidy table may sit
+		// in any of them; these runs take milliseconds)
+		for k, o := range withTables {
+			if o == a || k >= 4 {
+				continue
+			}
+			add("generate-db-scripts:other-app", "generate-db-scripts", nil, "-a", o.name, "-t", "Create it", "-o", fmt.Sprintf("out/db%d", k), "-d", "postgres", "root.sysl")
+			if haveDelta {
+				add("generate-db-scripts-delta:other-app", "generate-db-scripts-delta", nil, "-a", o.name, "-t", "Change it", "-o", fmt.Sprintf("out/dbd%d", k), "-d", "postgres", "root.sysl", "root2.sysl")
+			}
+		}
 		if haveDelta {
 			add("generate-db-scripts-delta", "generate-db-scripts-delta", nil, "-a", a.name, "-t", "Change it", "-o", "out/dbd", "-d", "postgres", "root.sysl", "root2.sysl")
 			if th || r.Chance(1, 3) {
